@@ -266,7 +266,8 @@ def judge(ctx, pool, d, jobs, battr, module, tag, items, nproc, keyfn, scoped_pr
     sib_all = collections.defaultdict(set); sib_bad = collections.defaultdict(set)
     for it in items:
         sib_all[it["sib"]] |= it["info"]["builds"]
-        if uniq[it["u"]] in bad_u: sib_bad[it["sib"]] |= it["info"]["builds"]
+        it["bad"] = uniq[it["u"]] in bad_u
+        if it["bad"]: sib_bad[it["sib"]] |= it["info"]["builds"]
     groups = collections.defaultdict(list); tested = collections.defaultdict(lambda: collections.defaultdict(set))
     bad_builds = set()
     for it in items:
@@ -476,11 +477,12 @@ def run(ctx):
     ctx.cov["rule"] = ("evaluations = executions of the real functions (one per alignment pair / split / mode / build); identical "
                        "(input, output) pairs are folded and every distinct pair is evaluated by TLC against the TLA+ reference; "
                        "non-trivial = length > 0; traces = distinct sequences of (state[12], state[13], ks_len) after each stream call")
-    ex = next((it["rec"] for it in items if it["rec"].get("n", 0) >= 64), None)
+    ex = next((it["rec"] for it in items if it["rec"].get("n", 0) >= 64 and not it["bad"]), None)
     if ex is not None:
         ctx.add(samples=[{"op": ex["op"], "rounds": ex["rounds"], "keybits": len(ex["key"]) * 8, "n": ex["n"], "out_head": bytes(ex["out"][:16]).hex()}])
-    if gitems:
-        g = gitems[0]["rec"]
+    gex = next((it["rec"] for it in gitems if not it["bad"]), None)
+    if gex is not None:
+        g = gex
         ctx.add(samples=[{"op": "gost " + g["op"], "sbox": SBOX_NAMES[g["sbox"]], "data": bytes(g["data"]).hex(), "out": bytes(g["out"]).hex()}])
     if tkeys:
         ctx.add(samples=[{"stream_trace": tkeys[len(tkeys) // 2][1][:200], "initial_counter_le": tkeys[len(tkeys) // 2][0]}])
